@@ -7,6 +7,8 @@
       [22; chunks; final; calls; cause]          adapter transport end to end (default limit)
       [23; maxlen; chunks; final; frames; end]   FSimpleServer.accept with a recording processor
                                                  (fails on frames starting with 0xEE)
+      [24; chunks; closed; frames]               FSimpleServer on a TCP socket, the peer keeps its end
+                                                 open: closed = 1 iff the server closed the connection
     error codes as Res.errk_code; 0 = nil. *)
 From Coq Require Import ZArith List Bool.
 From FV Require Import Base.Res Base.Bytes Base.GoSem Model.Headers Model.Receivers
@@ -120,6 +122,21 @@ Definition judge_case (t : tok) : Z :=
     let '(frames, e) := accept_loop recording_process (S (total_len chunks)) maxlen (fresh chunks final) in
     if frames_eqb frames (as_list (nth_tok 4 f)) && (accept_end_code e =? as_int (nth_tok 5 f))
     then 23000 + accept_end_code e else -1
+  else if kind =? 24 then
+    let chunks := tok_chunks (nth_tok 1 f) in
+    let oclosed := as_int (nth_tok 2 f) in
+    (* the peer neither sends more nor closes: the next read of the server never returns; the
+       model sees that as the terminal error ETimedOut, which is the only end that keeps the
+       connection *)
+    let '(frames, e) := accept_loop recording_process (S (total_len chunks)) max_frame (fresh chunks ETimedOut) in
+    if frames_eqb frames (as_list (nth_tok 3 f)) then
+      match e with
+      | AcceptReadErr ETimedOut => if oclosed =? 0 then 24000 else -1
+      | AcceptReadErr _ => if oclosed =? 1 then 24007 else -1
+      | AcceptProcessErr => if oclosed =? 1 then 24050 else -1
+      | _ => -1
+      end
+    else -1
   else -1.
 
 Definition judge (cases : list tok) : list Z := map judge_case cases.
